@@ -156,7 +156,7 @@ def run(ck):
             for (i1, i2, pt) in exp:
                 ia, ib = (i2, i1) if sw else (i1, i2)
                 hits = [r_ for r_ in res if r_[0][1] is A[ia] and r_[1][1] is B[ib]]
-                if len(hits) != 1 or (pt is not None and abs(hits[0][0][1].point(hits[0][0][2]) - pt) > 1e-6 * 12):
+                if len(hits) != 1 or (pt is not None and not (abs(hits[0][0][1].point(hits[0][0][2]) - pt) <= 1e-6 * 12)):
                     ck.disagree(key='Path.intersect/%s' % ('crossing-lost' if not hits else 'crossing-reported-twice' if len(hits) > 1 else 'wrong-point'),
                                 site='svgpathtools/path.py:Path.intersect', what='%s: crossing of segment %d with segment %d (at %r) reported %d times' % (name, ia, ib, pt, len(hits)),
                                 case={'family': name, 'swapped': sw}, expected=1, observed=len(hits), driver='path')
